@@ -332,7 +332,9 @@ def make_time(t):
 
 def key_of(ev):
     t = ev.time
-    return (t if type(t) is int else float(t), -ev.priority, ev._id)
+    # (the reference keeps its own creation sequence where the history records one:
+    # "earlier creation" is a fact about the history, not about the library's counter)
+    return (t if type(t) is int else float(t), -ev.priority, getattr(ev, "_vf_seq", ev._id))
 
 
 def run_history(case):
@@ -395,6 +397,7 @@ def run_history(case):
         mutated = False
         if name == "add":
             ev = EVENT_CLASSES[op[3] if len(op) > 3 else 0](make_time(op[1]), TARGET, "m", op[2])
+            ev._vf_seq = len(all_events)
             all_events.append(ev)
             el.add(ev)
             ref.append(ev)
